@@ -7,12 +7,12 @@ import re
 from typing import Optional
 
 from ..cfg import cfg_of
-from ..concrete import Unsupported, ceval, run_straightline
+from ..concrete import Unsupported, ceval, run_body, run_straightline
 from ..heap import ZERO, HeapInterp, Obj, prov, string, taint
 from ..model import AnalysisError, FuncInfo, norm, short
 from ..report import Finding, RuleResult
 from . import rule
-from .common import assigned_names, closure, entry, kwarg, names_in, own_walk, params_of, single_def, sites, try_const
+from .common import assigned_names, closure, entry, kwarg, names_in, own_walk, params_of, parent_map, single_def, sites, try_const
 from .spec import (V2000_ATOM, V2000_BOND, V2000_CHARGE_CODES, V2000_COUNTS, V2000_PROP, V3000_ATOM_KEYWORDS)
 
 SINKS = ("chg", "mass", "rad")
@@ -57,6 +57,7 @@ def analyse_reader(ctx, version: str):
         I = HeapInterp(ctx.repo, sink_keys=("chg", "mass", "rad", "element_symbol", "atomic_number"))
         lines = Obj("list")
         lines.elem = string()
+        lines.val = "lines"
         out = I.call(fi, [lines])
         if out.kind != "tuple" or len(out.items) != 2:
             raise AnalysisError(f"{fi.qualname} no longer returns (atoms, bonds)")
@@ -162,16 +163,13 @@ def r_kill(ctx) -> RuleResult:
     res = RuleResult("R-KILL", "a reader never removes, from all atoms, an attribute whose atom-block producer is the element symbol (D/T masses survive property lines)")
     n = 0
     for ver in ("V3000", "V2000"):
-        fi, I, rec, _ = analyse_reader(ctx, ver)
+        fi, I, rec, _bonds = analyse_reader(ctx, ver)
         sym_labels = set()
         for ev in I.events:
             if ev.kind == "store" and ev.key == "element_symbol":
                 sym_labels |= {x for x in ev.flags if x.startswith(("@col", "@idx"))}
         # labels that every value carries (line splicing etc.) are not specific to the symbol
-        common = None
-        for ev in I.events:
-            if ev.kind == "store" and ev.key in SINKS + ("element_symbol",):
-                common = set(ev.flags) if common is None else common & set(ev.flags)
+        common = common_labels(I, rec, _bonds)
         sym_labels -= (common or set())
         kills = _uniq_events(I.events, "kill")
         for ev in kills:
@@ -193,6 +191,24 @@ def r_kill(ctx) -> RuleResult:
 
 
 # --------------------------------------------------------------------------- R-PROV
+
+
+def common_labels(I, rec, bonds) -> set:
+    """labels that every value read from the file carries (line splicing, tokenising): they say nothing about which field
+    a value came from.  Intersection over all attribute stores, all fields of the atom records and of the bond records."""
+    sets = [set(ev.flags) for ev in I.events if ev.kind == "store"]
+    from_file = lambda t: any(x.startswith(("@idx", "@col", "@part")) for x in t)  # noqa: E731
+    if rec is not None and rec.kind == "rec":
+        sets += [set(taint(v)) for v in rec.fields.values() if from_file(taint(v))]
+    brec = bonds.elem if bonds is not None and bonds.kind == "map" else None
+    if brec is not None and brec.kind == "rec":
+        sets += [set(taint(v)) for v in brec.fields.values() if from_file(taint(v))]
+    if not sets:
+        return set()
+    out = set(sets[0])
+    for x in sets[1:]:
+        out &= x
+    return out
 
 
 def _labels(flags, prefix):
@@ -223,10 +239,7 @@ def r_prov(ctx) -> RuleResult:
                              f"V2000: {why}", line=getattr(ev.node, "lineno", None)))
     # ---- V3000
     fi, I, rec, bonds = analyse_reader(ctx, "V3000")
-    common = None
-    for ev in I.events:
-        if ev.kind == "store":
-            common = set(ev.flags) if common is None else common & set(ev.flags)
+    common = common_labels(I, rec, bonds)
     for ev in _uniq_events(I.events, "store"):
         fl = set(ev.flags) - (common or set())
         kws = _labels(fl, "@has:") | _labels(fl, "@sw:") | _labels(fl, "@eq:")
@@ -253,7 +266,7 @@ def r_prov(ctx) -> RuleResult:
         allflags = set()
         for v in list(rec.fields.values()):
             allflags |= taint(v)
-        bad = {x for x in allflags if x in ("@idx[0]", "@idx[1]", "@idx[2]", "@row[0]", "@row[1]", "@row[2]")}
+        bad = {x for x in allflags if x in ("@line[0]", "@line[1]", "@line[2]", "@row[0]", "@row[1]", "@row[2]")}
         res.inst(fi.fq, f"{ver}: header and comment lines do not reach atom records", "ok" if not bad else "fail")
         if bad:
             res.fail(Finding("R-PROV", fi.module.rel, fi.qualname, f"{sorted(bad)}", f"{ver}: a header/comment line flows into atom attributes"))
@@ -265,25 +278,7 @@ def r_prov(ctx) -> RuleResult:
 
 def _const_loop_envs(ctx, fi: FuncInfo, node: ast.AST) -> list[dict]:
     """bindings of variables that an enclosing loop / comprehension iterates over a constant container"""
-    parents = {}
-    for n in ast.walk(fi.node):
-        for c in ast.iter_child_nodes(n):
-            parents[id(c)] = n
-    envs = [{}]
-    cur = node
-    while id(cur) in parents:
-        cur = parents[id(cur)]
-        gens = []
-        if isinstance(cur, ast.For):
-            gens = [(cur.target, cur.iter)]
-        elif isinstance(cur, (ast.ListComp, ast.SetComp, ast.DictComp, ast.GeneratorExp)):
-            gens = [(g.target, g.iter) for g in cur.generators]
-        for tg, it in gens:
-            if isinstance(tg, ast.Name):
-                c = try_const(ctx, fi, it, default=None)
-                if isinstance(c, (set, frozenset, list, tuple, dict)) and 0 < len(c) <= 12:
-                    envs = [{**e, tg.id: v} for e in envs for v in (sorted(c) if isinstance(c, (set, frozenset)) else list(c))]
-    return envs
+    return ctx.cg.const_loop_envs(fi, node)
 
 
 def _token_predicates(ctx, fi: FuncInfo):
@@ -294,13 +289,80 @@ def _token_predicates(ctx, fi: FuncInfo):
             for g in n.generators:
                 if isinstance(g.target, ast.Name):
                     for c in g.ifs:
-                        if g.target.id in names_in(c) and any(isinstance(x, ast.Constant) and isinstance(x.value, str) for x in ast.walk(c)):
+                        if g.target.id in names_in(c) and _string_test(c, g.target.id):
                             out.append((n, g.target.id, c))
         if isinstance(n, ast.For) and isinstance(n.target, ast.Name):
             for st in ast.walk(n):
-                if isinstance(st, ast.If) and n.target.id in names_in(st.test) and \
-                        any(isinstance(x, ast.Constant) and isinstance(x.value, str) for x in ast.walk(st.test)):
+                if isinstance(st, ast.If) and n.target.id in names_in(st.test) and _string_test(st.test, n.target.id):
                     out.append((st, n.target.id, st.test))
+    return out
+
+
+def _string_test(test: ast.expr, var: str) -> bool:
+    """the test compares the token with text: a string literal occurs in it, or the token's startswith / endswith / == / in
+    is applied to a name (a prefix held in a variable or parameter)"""
+    for x in ast.walk(test):
+        if isinstance(x, ast.Constant) and isinstance(x.value, str):
+            return True
+        if isinstance(x, ast.Call) and isinstance(x.func, ast.Attribute) and x.func.attr in ("startswith", "endswith") and var in names_in(x.func.value):
+            return True
+    return False
+
+
+class Recognizer:
+    """a token predicate of the reader together with one binding of the names it depends on"""
+    def __init__(self, f, owner, var, pred, env):
+        self.f, self.owner, self.var, self.pred, self.env = f, owner, var, pred, env
+
+    def accepts(self, tok: str) -> bool:
+        return pred_accepts(self.pred, self.var, tok, self.env)
+
+    def text(self) -> str:
+        b = ", ".join(f"{k}={v!r}" for k, v in sorted(self.env.items()) if k in names_in(self.pred))
+        return short(self.pred) + (f" [{b}]" if b else "")
+
+
+def token_recognizers(ctx, fis) -> list:
+    """every token predicate in `fis`, once per binding of the names it uses: module constants, variables of enclosing
+    loops over constant tables, parameters whose call sites pass constants (possibly out of such a loop), and locals
+    computed from those by simple assignments"""
+    import itertools
+    out = []
+    for f in fis:
+        for owner, var, pred in _token_predicates(ctx, f):
+            free = names_in(pred) - {var}
+            # locals feeding the predicate through simple assignments: prefix = keyword + "="
+            assigns = [st for st in own_walk(f.node) if isinstance(st, ast.Assign) and len(st.targets) == 1 and isinstance(st.targets[0], ast.Name)
+                       and st.lineno < pred.lineno]
+            assigns.sort(key=lambda st: st.lineno)
+            need = set(free)
+            for st in reversed(assigns):
+                if st.targets[0].id in need:
+                    need |= names_in(st.value)
+            base = {}
+            for nm in need:
+                v = try_const(ctx, f, ast.Name(nm, ast.Load()), default=None)
+                if v is not None:
+                    base[nm] = v
+            envs = [{**base, **le} for le in _const_loop_envs(ctx, f, pred)]
+            for nm in sorted(need - set(base)):
+                if nm in params_of(f.node) and not any(nm in e for e in envs):
+                    vals = ctx.cg.param_values(f, nm)
+                    if vals and len(vals) <= 12:
+                        try:
+                            vs = sorted(vals)
+                        except TypeError:
+                            vs = list(vals)
+                        envs = [{**e, nm: v} for e in envs for v in vs]
+            for e in envs:
+                e2 = dict(e)
+                for st in assigns:
+                    if st.targets[0].id in need and st.targets[0].id not in e2:
+                        try:
+                            e2[st.targets[0].id] = ceval(st.value, e2)
+                        except Exception:
+                            pass
+                out.append(Recognizer(f, owner, var, pred, {k: v for k, v in e2.items() if k in free}))
     return out
 
 
@@ -332,44 +394,30 @@ def r_kwexact(ctx) -> RuleResult:
     res = RuleResult("R-KWEXACT", "each optional-attribute recognizer of the V3000 atom decoder accepts exactly its own keyword among the CTfile atom keywords")
     v3 = reader_entries(ctx)["V3000"]
     fis = [ctx.cg.funcs[q] for q in ctx.cg.closure([v3.fq])]
-    atom_fis = [f for f in fis if "atom" in f.name and "attr" in f.name] or fis
-    preds = []
-    for f in atom_fis:
-        preds += [(f, *p) for p in _token_predicates(ctx, f)]
+    recs = token_recognizers(ctx, fis)
     values = ["1", "-1", "0", "2", "13", "15", "(1 2)"]
     spec_tokens = {kw: [f"{kw}={v}" for v in values] for kw in V3000_ATOM_KEYWORDS}
     positional = ["1", "12", "C", "Cl", "H", "D", "0", "0.000000", "-1.250000", "M", "V30", "*", "Ra", "Hs", "Md"]
     found = {}
-    for f, owner, var, pred in preds:
-        # bind other free names of the predicate from simple constant assignments in the function
-        env0 = {}
-        p_ast = pred[1] if isinstance(pred, tuple) else pred
-        for nm in names_in(p_ast) - {var}:
-            v = try_const(ctx, f, ast.Name(nm, ast.Load()), default=None)
-            if v is not None:
-                env0[nm] = v
-
-        loop_envs = _const_loop_envs(ctx, f, pred)
-        if len(loop_envs) > 1:
-            # one recognizer per value of the constant loop variable (table-driven recognizers)
-            for le in loop_envs:
-                preds.append((f, owner, var, ("bound", pred, le)))
+    seen_r = set()
+    for r in recs:
+        f, pred, accepts = r.f, r.pred, r.accepts
+        key_ = (f.fq, id(pred), tuple(sorted((k, repr(v)) for k, v in r.env.items())))
+        if key_ in seen_r:
             continue
-        bound_env = {}
-        if isinstance(pred, tuple) and pred[0] == "bound":
-            _, pred, bound_env = pred
-
-        def accepts(tok: str, pred=pred, bound_env=bound_env) -> bool:
-            return pred_accepts(pred, var, tok, {**env0, **bound_env})
+        seen_r.add(key_)
         try:
             own = [kw for kw in ("CHG", "MASS", "RAD") if all(accepts(t) for t in spec_tokens[kw][:2])]
+            if len(own) != 1 and not own and not any(accepts(t) for kw in ("CHG", "MASS", "RAD") for t in spec_tokens[kw]):
+                continue        # not an attribute recognizer (e.g. a bond-line keyword)
+            if all(accepts(t) for t in positional) and all(accepts(t) for toks in spec_tokens.values() for t in toks):
+                continue        # a generic token filter (drops blanks): it does not single out any token
         except Unsupported as e:
-            raise AnalysisError(f"R-KWEXACT: predicate `{short(pred)}` in {f.qualname}: {e}")
+            if "atom" in f.name:
+                raise AnalysisError(f"R-KWEXACT: predicate `{short(pred)}` in {f.qualname}: {e}")
+            continue
         if len(own) != 1:
-            # not an attribute recognizer (e.g. a blank filter)
-            if not own and not any(accepts(t) for kw in ("CHG", "MASS", "RAD") for t in spec_tokens[kw]):
-                continue
-            res.inst(f.fq, short(pred), "fail", detail=f"accepts keywords {own}")
+            res.inst(f.fq, r.text(), "fail", detail=f"accepts keywords {own}")
             res.fail(Finding("R-KWEXACT", f.module.rel, f.qualname, norm(pred), f"recognizer accepts the keywords {own or 'of several attributes partially'}: it cannot tell them apart", line=pred.lineno))
             continue
         kw = own[0]
@@ -378,7 +426,7 @@ def r_kwexact(ctx) -> RuleResult:
         wrong += [t for t in positional if accepts(t)]
         missed = [t for t in spec_tokens[kw] if t != f"{kw}=(1 2)" and not accepts(t)]
         ok = not wrong and not missed
-        res.inst(f.fq, f"{kw}: `{short(pred)}`", "ok" if ok else "fail",
+        res.inst(f.fq, f"{kw}: `{r.text()}`", "ok" if ok else "fail",
                  detail=f"evaluated on {sum(len(v) for v in spec_tokens.values()) + len(positional)} tokens")
         if wrong:
             res.fail(Finding("R-KWEXACT", f.module.rel, f.qualname, norm(pred),
@@ -673,6 +721,13 @@ def r_sibkeys(ctx) -> RuleResult:
 # --------------------------------------------------------------------------- R-SUPERSEDE
 
 
+def scan_var(fn):
+    for lp in ast.walk(fn):
+        if isinstance(lp, ast.For) and isinstance(lp.target, ast.Name) and any(isinstance(x, ast.Constant) and x.value == "M  END" for x in ast.walk(lp)):
+            return lp.target.id
+    return None
+
+
 @rule("R-SUPERSEDE")
 def r_supersede(ctx) -> RuleResult:
     res = RuleResult("R-SUPERSEDE", "V2000 property block: CHG or RAD lines clear both chg and rad of every atom before the merge; the scan ends at `M  END` or raises")
@@ -691,137 +746,167 @@ def r_supersede(ctx) -> RuleResult:
     chg_k = ctx.repo.const("tucan.graph_attributes", "CHG")
     rad_k = ctx.repo.const("tucan.graph_attributes", "RAD")
 
-    def kills_of(call: ast.Call) -> set:
-        """keys removed from all atoms by this call (direct pop or clear helper with constant key)"""
-        cs = ctx.cg.resolve_call(pf, call, ctx.cg.local_types(pf), set(params_of(fn)))
-        out = set()
-        if cs.kind == "tucan":
-            tf = cs.target
-            tp = params_of(tf.node)
-            for x in own_walk(tf.node):
-                if isinstance(x, ast.Call) and isinstance(x.func, ast.Attribute) and x.func.attr == "pop" and x.args:
-                    k = x.args[0]
-                    if isinstance(k, ast.Name) and k.id in tp:
-                        idx = tp.index(k.id)
-                        if idx < len(call.args):
-                            v = try_const(ctx, pf, call.args[idx])
-                            if v is not None:
-                                out.add(v)
-                    else:
-                        v = try_const(ctx, tf, k)
-                        if v is not None:
-                            out.add(v)
+    # ---- where chg / rad are removed from atom records: directly in the property function or in a callee (one level),
+    #      each with the guards that enclose it (callee guards are evaluated with the call's arguments)
+    def guards_of(fnode, target):
+        """[(test, polarity)] of the If statements of fnode that enclose `target`"""
+        out = []
+
+        def walk(stmts, acc):
+            for st in stmts:
+                if st is target or any(x is target for x in ast.walk(st)):
+                    if isinstance(st, ast.If):
+                        inb = any(x is target for b_ in st.body for x in ast.walk(b_))
+                        ino = any(x is target for b_ in st.orelse for x in ast.walk(b_))
+                        if inb:
+                            return walk(st.body, acc + [(st.test, True)])
+                        if ino:
+                            return walk(st.orelse, acc + [(st.test, False)])
+                        return acc          # inside the test itself
+                    for fld in ("body", "orelse", "finalbody"):
+                        sub = getattr(st, fld, None)
+                        if isinstance(sub, list) and any(x is target for b_ in sub if isinstance(b_, ast.AST) for x in ast.walk(b_)):
+                            return walk(sub, acc)
+                    return acc
+            return acc
+        return walk(fnode.body, [])
+
+    def removals(f, bind):
+        """(node, key) of every `.pop(K…)` / `del x[K]` in f whose key is constant (after binding f's parameters by `bind`)"""
+        out = []
+        for x in own_walk(f.node):
+            k = None
+            if isinstance(x, ast.Call) and isinstance(x.func, ast.Attribute) and x.func.attr == "pop" and x.args:
+                k = x.args[0]
+            elif isinstance(x, ast.Delete) and len(x.targets) == 1 and isinstance(x.targets[0], ast.Subscript):
+                k = x.targets[0].slice
+            if k is None:
+                continue
+            if isinstance(k, ast.Name) and k.id in bind:
+                v = bind[k.id]
+            else:
+                v = try_const(ctx, f, k)
+            if isinstance(v, str):
+                out.append((x, v))
         return out
-    kill_nodes = {}
-    for x in own_walk(fn):
-        if isinstance(x, ast.Call):
-            ks = kills_of(x)
-            if not ks and isinstance(x.func, ast.Attribute) and x.func.attr == "pop" and x.args:
-                k = try_const(ctx, pf, x.args[0])       # removal written inline
-                if k is not None:
-                    ks = {k}
-            if ks:
-                kill_nodes[id(x)] = (x, ks)
-    # merge call: callee that updates atom records from the collected entries (|= / update on items of param 0)
-    merge_calls = []
+    kills = []          # dicts: key, site (node in pf), node (the removal), func, pf_guards, callee_guards, call
+    for x, k in removals(pf, {}):
+        kills.append({"key": k, "site": x, "node": x, "func": pf, "pf_guards": guards_of(fn, x), "callee_guards": [], "call": None})
     for x in own_walk(fn):
         if isinstance(x, ast.Call):
             cs = ctx.cg.resolve_call(pf, x, ctx.cg.local_types(pf), set(params_of(fn)))
-            if cs.kind == "tucan" and any(isinstance(y, ast.AugAssign) and isinstance(y.op, ast.BitOr) or
-                                          (isinstance(y, ast.Call) and isinstance(y.func, ast.Attribute) and y.func.attr == "update")
-                                          for y in own_walk(cs.target.node)) and "merge" in cs.target.name and "tuple" not in cs.target.name:
-                merge_calls.append(x)
+            if cs.kind != "tucan":
+                continue
+            tf = cs.target
+            tp = params_of(tf.node)
+            bind = {}
+            for i_, a_ in enumerate(x.args):
+                if i_ < len(tp):
+                    v = try_const(ctx, pf, a_)
+                    if v is not None:
+                        bind[tp[i_]] = v
+            for y, k in removals(tf, bind):
+                kills.append({"key": k, "site": x, "node": y, "func": tf, "pf_guards": guards_of(fn, x), "callee_guards": guards_of(tf.node, y), "call": x})
+    kill_nodes = {id(k["site"]): (k["site"], {kk["key"] for kk in kills if kk["site"] is k["site"]}) for k in kills}
+    # merge: where the collected entries are written over the atom records (|= / update), in pf or a callee
+    merge_calls = []
+    merge_inner = {}
+    scan0 = next((lp for lp in own_walk(fn) if isinstance(lp, ast.For) and isinstance(lp.target, ast.Name)
+                  and any(isinstance(x, ast.Constant) and x.value == "M  END" for x in ast.walk(lp))), None)
+    for x in own_walk(fn):
+        if isinstance(x, ast.Call):
+            cs = ctx.cg.resolve_call(pf, x, ctx.cg.local_types(pf), set(params_of(fn)))
+            if cs.kind == "tucan":
+                inner = [y for y in own_walk(cs.target.node) if (isinstance(y, ast.AugAssign) and isinstance(y.op, ast.BitOr)) or
+                         (isinstance(y, ast.Call) and isinstance(y.func, ast.Attribute) and y.func.attr == "update")]
+                # the callee merges *into atom records*: it is handed the atom table (not only the collecting dict)
+                scanned = {n_.id for n_ in ast.walk(scan0.iter) if isinstance(n_, ast.Name)} if scan0 is not None else set()
+                atom_tbls = set(params_of(fn)) - scanned
+                if inner and any(isinstance(a_, ast.Name) and a_.id in atom_tbls for a_ in x.args) and \
+                        not any(scan_var(fn) in names_in(a_) for a_ in x.args):
+                    merge_calls.append(x)
+                    merge_inner[id(x)] = (cs.target, inner)
     if not merge_calls:
-        # merge written inline
         for y in own_walk(fn):
             if isinstance(y, ast.AugAssign) and isinstance(y.op, ast.BitOr):
                 merge_calls.append(y)
     if not merge_calls:
         raise AnalysisError("R-SUPERSEDE: cannot find where property entries are merged into the atom records")
-    # what does seeing a CHG line / a RAD line establish, whatever its entries are?  Evaluate the path condition of every
-    # flag assignment / key store of the scan loop on sample lines of that kind (two samples with different content);
-    # a condition that needs anything but the line's kind is "not established"
+    # ---- what does seeing a CHG line / a RAD line establish, whatever its entries are?  Run the statements before the scan
+    #      loop and then one pass of the loop body on sample lines of that kind (samples with different content); every guard
+    #      of a removal must come out true after each of them
     SAMPLES = {"M  CHG": ["M  CHG  1   1   1", "M  CHG  1   2   0", "M  CHG  0"],
-               "M  RAD": ["M  RAD  1   1   2", "M  RAD  1   3   0", "M  RAD  0"],
-               "M  ISO": ["M  ISO  1   1  13", "M  ISO  1   2   0", "M  ISO  0"]}
+               "M  RAD": ["M  RAD  1   1   2", "M  RAD  1   3   0", "M  RAD  0"]}
     scan = next((lp for lp in own_walk(fn) if isinstance(lp, ast.For) and isinstance(lp.target, ast.Name)
                  and any(isinstance(x, ast.Constant) and x.value == "M  END" for x in ast.walk(lp))), None)
     if scan is None:
         raise AnalysisError("R-SUPERSEDE: scan loop not found")
     lv = scan.target.id
     consts = {}
-    for nm in {x.id for x in ast.walk(scan) if isinstance(x, ast.Name)}:
-        v = try_const(ctx, pf, ast.Name(nm, ast.Load()))
-        if v is not None:
-            consts[nm] = v
+    for f_ in {pf} | {k["func"] for k in kills}:
+        for nm in {x.id for x in ast.walk(f_.node) if isinstance(x, ast.Name)}:
+            v = try_const(ctx, f_, ast.Name(nm, ast.Load()))
+            if v is not None:
+                consts.setdefault(nm, v)
+    pre = [st for st in fn.body if st.end_lineno < scan.lineno]
 
-    def effects(stmts, conds):
-        for st in stmts:
-            if isinstance(st, ast.If):
-                yield from effects(st.body, conds + [(st.test, True)])
-                yield from effects(st.orelse, conds + [(st.test, False)])
-            elif isinstance(st, (ast.For, ast.While, ast.With)):
-                yield from effects(st.body, conds)
-            else:
-                yield st, conds
-    facts: dict[str, set] = {}
-    for st, conds in effects(scan.body, []):
-        eff = None
-        if isinstance(st, ast.Assign) and isinstance(st.targets[0], ast.Name) and isinstance(st.value, ast.Constant) and st.value.value is True:
-            eff = ("flag", st.targets[0].id)
-        elif isinstance(st, ast.Assign) and isinstance(st.targets[0], ast.Subscript) and isinstance(st.targets[0].value, ast.Name):
-            eff = ("key", st.targets[0].value.id, st.targets[0].slice)
-        elif isinstance(st, ast.Expr) and isinstance(st.value, ast.Call) and isinstance(st.value.func, ast.Attribute) and st.value.func.attr in ("add", "append") \
-                and isinstance(st.value.func.value, ast.Name) and st.value.args:
-            eff = ("key", st.value.func.value.id, st.value.args[0])
-        if eff is None:
-            continue
+    def after_sample(smp):
+        env = dict(consts)
+        run_body(pre, env)
+        env[lv] = smp
+        run_body(scan.body, env)
+        return env
+
+    def established(k) -> tuple:
+        """(True, '') / (False, reason) / raises Unsupported"""
         for kind, samples in SAMPLES.items():
-            ok_all = True
-            keyval = None
             for smp in samples:
-                env = {**consts, lv: smp}
-                try:
-                    for test, pol in conds:
-                        if bool(ceval(test, env)) != pol:
-                            raise ValueError
-                    if eff[0] == "key":
-                        keyval = ceval(eff[2], env)
-                except Exception:
-                    ok_all = False
-                    break
-            if ok_all:
-                facts.setdefault(kind, set()).add(("flag", eff[1]) if eff[0] == "flag" else ("key", eff[1], keyval))
-
-    def implied(cond: ast.expr, which: str) -> bool:
-        """does having seen a `which` line make the condition true?"""
-        fs = facts.get(which, set())
-        if isinstance(cond, ast.Name):
-            return ("flag", cond.id) in fs
-        if isinstance(cond, ast.BoolOp):
-            vals = [implied(v, which) for v in cond.values]
-            return any(vals) if isinstance(cond.op, ast.Or) else all(vals)
-        if isinstance(cond, ast.Compare) and len(cond.ops) == 1 and isinstance(cond.ops[0], ast.In) and isinstance(cond.comparators[0], ast.Name):
-            k = try_const(ctx, pf, cond.left)
-            return ("key", cond.comparators[0].id, k) in fs
-        return False
-    # every kill of chg / rad must run whenever a CHG line or a RAD line was seen
+                env = after_sample(smp)
+                for test, pol in k["pf_guards"]:
+                    if bool(ceval(test, env)) != pol:
+                        return False, f"`{short(test, 40)}` is {not pol} after the line {smp!r}"
+                if k["call"] is not None:
+                    tp = params_of(k["func"].node)
+                    env2 = dict(consts)
+                    for i_, a_ in enumerate(k["call"].args):
+                        if i_ < len(tp):
+                            try:
+                                env2[tp[i_]] = ceval(a_, env)
+                            except Unsupported:
+                                pass
+                    for kw_ in k["call"].keywords:
+                        if kw_.arg:
+                            try:
+                                env2[kw_.arg] = ceval(kw_.value, env)
+                            except Unsupported:
+                                pass
+                    for test, pol in k["callee_guards"]:
+                        if bool(ceval(test, env2)) != pol:
+                            return False, f"`{short(test, 40)}` is {not pol} after the line {smp!r}"
+        return True, ""
     killed_when = {chg_k: False, rad_k: False}
+    why_not = {}
     conds = {}
-    for n in own_walk(fn):
-        if isinstance(n, ast.If):
-            for x in ast.walk(ast.Module(n.body, [])):
-                if isinstance(x, ast.Call) and id(x) in kill_nodes:
-                    for k in kill_nodes[id(x)][1]:
-                        if k in killed_when and implied(n.test, "M  CHG") and implied(n.test, "M  RAD"):
-                            killed_when[k] = True
-                        conds.setdefault(k, []).append(short(n.test, 50))
+    for k in kills:
+        if k["key"] not in killed_when:
+            continue
+        gtxt = [("" if pol else "not ") + short(t, 40) for t, pol in k["pf_guards"] + k["callee_guards"]]
+        conds.setdefault(k["key"], []).append(" and ".join(gtxt) or "always")
+        try:
+            ok_, why = established(k)
+        except Unsupported as ex:
+            raise AnalysisError(f"R-SUPERSEDE: cannot evaluate the condition under which `{k['key']}` is cleared ({ex})")
+        if ok_:
+            killed_when[k["key"]] = True
+        else:
+            why_not[k["key"]] = why
     ok = all(killed_when.values())
     res.inst(pf.fq, f"chg cleared under {conds.get(chg_k)}, rad cleared under {conds.get(rad_k)}: both follow from a CHG line and from a RAD line", "ok" if ok else "fail")
     if not ok:
         miss = sorted(k for k, v in killed_when.items() if not v)
         res.fail(Finding("R-SUPERSEDE", pf.module.rel, pf.qualname, f"supersession of {miss}",
-                         f"a CHG or RAD property line does not clear {miss} of all atoms: atom-block charge codes survive although the format says they are superseded",
+                         f"a CHG or RAD property line does not clear {miss} of all atoms: atom-block charge codes survive although the format says they are superseded"
+                         + (f" ({'; '.join(why_not.values())})" if why_not else ""),
                          line=fn.lineno))
     # entries of all lines accumulate: inside the scan loop nothing that depends on the line is stored under a loop-invariant name / key
     for lp in [n for n in own_walk(fn) if isinstance(n, ast.For) and isinstance(n.target, ast.Name)]:
@@ -843,12 +928,26 @@ def r_supersede(ctx) -> RuleResult:
     # clearing precedes the merge on every path
     for mc in merge_calls:
         mn = cfg.stmt_node_containing(mc) if not isinstance(mc, ast.stmt) else cfg.node_of(mc)
-        for _, (kc, ks) in kill_nodes.items():
+        for k in kills:
+            kc = k["site"]
             kn = cfg.stmt_node_containing(kc)
-            bad = mn is not None and kn is not None and cfg.reachable(mn, kn)
-            res.inst(pf.fq, f"`{short(kc, 50)}` is never executed after the merge", "fail" if bad else "ok")
+            if kc is mc and id(mc) in merge_inner and k["func"] is merge_inner[id(mc)][0]:
+                # removal and merge live in the same callee: order them there; a loop over the atoms that both sit in
+                # is one atom per iteration, so the back edge does not count
+                tf, inner = merge_inner[id(mc)]
+                c3 = cfg_of(tf.node)
+                bad = False
+                for y in inner:
+                    yn, xn = c3.stmt_node_containing(y), c3.stmt_node_containing(k["node"])
+                    heads = [c3.node_of(lp) for lp in own_walk(tf.node) if isinstance(lp, ast.For)
+                             and any(z is y for z in ast.walk(lp)) and any(z is k["node"] for z in ast.walk(lp))]
+                    if yn is not None and xn is not None and yn != xn and c3.reachable(yn, xn, avoid=[h for h in heads if h is not None]):
+                        bad = True
+            else:
+                bad = mn is not None and kn is not None and mn != kn and cfg.reachable(mn, kn)
+            res.inst(pf.fq, f"`{short(k['node'], 50)}` is never executed after the merge", "fail" if bad else "ok")
             if bad:
-                res.fail(Finding("R-SUPERSEDE", pf.module.rel, pf.qualname, norm(kc), "attributes are cleared after the property entries were merged: the entries themselves are lost", line=kc.lineno))
+                res.fail(Finding("R-SUPERSEDE", k["func"].module.rel, k["func"].qualname, norm(k["node"]), "attributes are cleared after the property entries were merged: the entries themselves are lost", line=k["node"].lineno))
     # the scan ends at M  END or raises
     loops = [n for n in own_walk(fn) if isinstance(n, ast.For)]
     scan = None
@@ -871,6 +970,73 @@ def r_supersede(ctx) -> RuleResult:
 # --------------------------------------------------------------------------- R-ORDERING
 
 
+def _str_tests(ctx, f, attr) -> set:
+    out = set()
+    for x in own_walk(f.node):
+        if isinstance(x, ast.Call) and isinstance(x.func, ast.Attribute) and x.func.attr == attr and x.args:
+            v = try_const(ctx, f, x.args[0])
+            if isinstance(v, str):
+                out.add(v)
+            elif isinstance(v, tuple) and all(isinstance(t, str) for t in v):
+                out |= set(v)
+    return out
+
+
+def _drop(ctx, f, e, side):
+    """number of characters expression e drops from its operand at `side` ('end' / 'start'), or None"""
+    if isinstance(e, ast.Subscript) and isinstance(e.slice, ast.Slice) and e.slice.step is None:
+        lo = try_const(ctx, f, e.slice.lower) if e.slice.lower is not None else 0
+        hi = try_const(ctx, f, e.slice.upper) if e.slice.upper is not None else None
+        if side == "end" and lo == 0 and isinstance(hi, int) and hi < 0:
+            return -hi
+        if side == "start" and e.slice.upper is None and isinstance(lo, int) and lo >= 0:
+            return lo
+    if isinstance(e, ast.Call) and isinstance(e.func, ast.Attribute) and e.args:
+        v = try_const(ctx, f, e.args[0])
+        if isinstance(v, str) and ((side == "end" and e.func.attr == "removesuffix") or (side == "start" and e.func.attr == "removeprefix")):
+            return len(v)
+    return None
+
+
+def splice_model(ctx):
+    """The V3000 reader's continuation-line splicer, recognised by what it does: a function that concatenates a line
+    minus its tail with a line minus its head, and that (itself or through a helper) tests `endswith`.
+    Returns None when the reader has no continuation test at all; raises when there is one but the joining
+    expression is not of a recognised form."""
+    if "splice_model" in ctx.cache:
+        return ctx.cache["splice_model"]
+    v3 = reader_entries(ctx)["V3000"]
+    clo = [ctx.cg.funcs[q] for q in ctx.cg.closure([v3.fq])]
+    found = None
+    testers = [f for f in clo if _str_tests(ctx, f, "endswith")]
+    for f in clo:
+        reach = {f.fq} | set(ctx.cg.closure([f.fq]))
+        conts, prefixes = set(), set()
+        for q in reach:
+            conts |= _str_tests(ctx, ctx.cg.funcs[q], "endswith")
+            prefixes |= _str_tests(ctx, ctx.cg.funcs[q], "startswith")
+        if not conts:
+            continue
+        for x in own_walk(f.node):
+            if isinstance(x, ast.BinOp) and isinstance(x.op, ast.Add):
+                a, b = _drop(ctx, f, x.left, "end"), _drop(ctx, f, x.right, "start")
+                if a is not None and b is not None:
+                    cand = {"func": f, "concat": x, "drop_end": a, "drop_start": b, "conts": conts, "prefixes": prefixes}
+                    # the innermost function wins (a caller of the splicer also `reaches' the tests)
+                    if found is None or f.fq in ctx.cg.closure([found["func"].fq]):
+                        found = cand
+    if found is None and testers:
+        raise AnalysisError(f"continuation test found in {testers[0].fq} but the expression joining two lines is not of a recognised form (a[:−k] + b[p:])")
+    if found is None:
+        other = [f for f in clo for x in own_walk(f.node)
+                 if (isinstance(x, ast.Compare) and isinstance(x.left, ast.Subscript) and try_const(ctx, f, x.left.slice) == -1)
+                 or (isinstance(x, ast.Call) and norm(x.func).startswith("re."))]
+        if other:
+            raise AnalysisError(f"{other[0].fq} seems to test line endings in a form this analysis does not read")
+    ctx.cache["splice_model"] = found
+    return found
+
+
 @rule("R-ORDERING")
 def r_ordering(ctx) -> RuleResult:
     res = RuleResult("R-ORDERING", "V3000: continuation splicing precedes tokenising and every raw line goes through it; bond indices are validated before return; TUCAN parser: every index is validated before it is used")
@@ -879,67 +1045,119 @@ def r_ordering(ctx) -> RuleResult:
     cfg = cfg_of(fn)
     lines_p = params_of(fn)[0]
     clo = [ctx.cg.funcs[q] for q in ctx.cg.closure([v3.fq])]
-    # (a) splice before split
-    splicers = [f for f in clo if any(isinstance(x, ast.Call) and isinstance(x.func, ast.Attribute) and x.func.attr == "endswith" and x.args
-                                      and isinstance(x.args[0], ast.Constant) and x.args[0].value == "-" for x in own_walk(f.node))]
-    if not splicers:
+    # (a) splice before split: every raw use of the raw line list leads to the splicer
+    sm = splice_model(ctx)
+    if sm is None:
         res.inst(v3.fq, "continuation-line splicing exists", "fail")
         res.fail(Finding("R-ORDERING", v3.module.rel, v3.qualname, "continuation lines", "no function joins lines that end in '-' (continuation lines are not spliced)", line=fn.lineno))
     else:
-        sp = splicers[0]
-        # the function(s) calling the splicer split lines into tokens on the splicer's result only
-        callers = [f for f in clo if any(cs.kind == "tucan" and cs.target.fq == sp.fq for cs in sites(ctx, f))]
-        if not callers:
-            raise AnalysisError("R-ORDERING: the continuation-line splicer is never called")
-        # the entry hands its raw lines to such a function and to nothing else (checked below)
-        for f in callers + ([v3] if v3 not in callers else []):
+        sp = sm["func"]
+        res.inst(sp.fq, "continuation-line splicing exists", "ok", detail=f"splice `{short(sm['concat'], 60)}`")
+        seen_chain: set = set()
+        reached = [False]
+
+        def raw_uses(f, p):
+            """uses of parameter p of f that can still see the caller's (raw) object"""
+            c2 = cfg_of(f.node)
+            rebinds = {c2.stmt_node_containing(d) for d in assigned_names(f.node).get(p, [])} - {None}
+            out = []
             for x in own_walk(f.node):
-                if isinstance(x, (ast.ListComp, ast.GeneratorExp)) and any(isinstance(y, ast.Call) and isinstance(y.func, ast.Attribute) and y.func.attr == "split" for y in ast.walk(x.elt)):
-                    it = x.generators[0].iter
-                    src = single_def(f.node, it.id) if isinstance(it, ast.Name) else it
-                    # parameter rebinding:  lines = splice(lines)
-                    if isinstance(it, ast.Name) and src is None:
-                        defs = assigned_names(f.node).get(it.id, [])
-                        src = defs[0].value if len(defs) == 1 and isinstance(defs[0], ast.Assign) else None
-                    ok = isinstance(src, ast.Call) and ctx.cg.resolve_call(f, src, ctx.cg.local_types(f), set()).kind == "tucan" and \
-                        ctx.cg.resolve_call(f, src, ctx.cg.local_types(f), set()).target.fq == sp.fq
-                    if ok and isinstance(it, ast.Name) and it.id in params_of(f.node):
-                        # the rebinding must dominate the split
-                        c2 = cfg_of(f.node)
-                        d = assigned_names(f.node)[it.id][0]
-                        ok = c2.dominates(c2.node_of(d), c2.stmt_node_containing(x))
-                    res.inst(f.fq, f"tokenising `{short(x, 60)}` works on spliced lines", "ok" if ok else "fail")
-                    if not ok:
-                        res.fail(Finding("R-ORDERING", f.module.rel, f.qualname, norm(x), "lines are split into tokens before continuation lines were joined", line=x.lineno))
-        # raw `lines` of the entry goes only to the tokenizer
-        uses = [x for x in own_walk(fn) if isinstance(x, ast.Name) and x.id == lines_p and isinstance(x.ctx, ast.Load)]
-        okuse = len(uses) == 1
-        res.inst(v3.fq, f"raw line list is used once ({len(uses)} uses)", "ok" if okuse else "fail")
-        if not okuse:
-            res.fail(Finding("R-ORDERING", v3.module.rel, v3.qualname, f"{len(uses)} uses of {lines_p}", "raw (unspliced) lines are read besides the tokenizer", line=fn.lineno))
-    # (b) bond validation post-dominates bond decoding
-    val_calls = []
-    bond_calls = []
-    for x in own_walk(fn):
-        if isinstance(x, ast.Call):
-            cs = ctx.cg.resolve_call(v3, x, ctx.cg.local_types(v3), set(params_of(fn)))
-            if cs.kind == "tucan":
-                sub = ctx.cg.closure([cs.target.fq])
-                raises_on_missing = any(
-                    isinstance(y, ast.If) and isinstance(y.test, ast.Compare) and isinstance(y.test.ops[0], ast.NotIn) and any(isinstance(z, ast.Raise) for z in y.body)
-                    for q in sub for y in own_walk(ctx.cg.funcs[q].node))
-                if "valid" in cs.target.name and "bond" in cs.target.name and raises_on_missing:
-                    val_calls.append(x)
-                elif "bond" in cs.target.name and "valid" not in cs.target.name:
-                    bond_calls.append(x)
+                if isinstance(x, ast.Name) and x.id == p and isinstance(x.ctx, ast.Load):
+                    n_ = c2.stmt_node_containing(x)
+                    if n_ is None or c2.reachable(c2.ENTRY, n_, avoid=rebinds - {n_}):
+                        out.append(x)
+            return out
+
+        def follow(f, p):
+            if (f.fq, p) in seen_chain:
+                return
+            seen_chain.add((f.fq, p))
+            if f.fq == sp.fq:
+                reached[0] = True
+                return
+            parents = parent_map(f.node)
+            for u in raw_uses(f, p):
+                par = parents.get(u)
+                ok = False
+                why = "raw (unspliced) lines are read besides the splicer"
+                if isinstance(par, ast.Call) and u in par.args:
+                    cs = ctx.cg.resolve_call(f, par, ctx.cg.local_types(f), set(params_of(f.node)))
+                    if cs.kind == "tucan":
+                        k = par.args.index(u)
+                        ps = params_of(cs.target.node)
+                        if k < len(ps):
+                            follow(cs.target, ps[k])
+                            ok = True
+                    elif isinstance(par.func, ast.Name) and par.func.id == "len":
+                        ok = True
+                elif isinstance(par, ast.keyword):
+                    ok = False
+                elif isinstance(par, (ast.If, ast.While)) and par.test is u or (isinstance(par, ast.UnaryOp) and isinstance(par.op, ast.Not)):
+                    ok = True
+                res.inst(f.fq, f"raw line list use `{short(par if par is not None else u, 60)}` goes to the splicer only", "ok" if ok else "fail")
+                if not ok:
+                    res.fail(Finding("R-ORDERING", f.module.rel, f.qualname, norm(par if par is not None else u), why, line=u.lineno))
+
+        follow(v3, lines_p)
+        if not reached[0] and not any(f.rule == "R-ORDERING" for f in res.findings):
+            res.inst(v3.fq, "raw line list reaches the splicer", "fail")
+            res.fail(Finding("R-ORDERING", v3.module.rel, v3.qualname, "raw lines never spliced", "the raw line list never reaches the continuation-line splicer: lines are split into tokens before continuation lines were joined", line=fn.lineno))
+        # the splicer's result (not its argument) is what gets tokenised
+        for f in clo:
+            for cs in sites(ctx, f):
+                if cs.kind == "tucan" and cs.target.fq == sp.fq:
+                    par = parent_map(f.node).get(cs.node)
+                    used = not isinstance(par, ast.Expr)
+                    res.inst(f.fq, f"result of `{short(cs.node, 50)}` is used", "ok" if used else "fail")
+                    if not used:
+                        res.fail(Finding("R-ORDERING", f.module.rel, f.qualname, norm(cs.node), "the spliced lines are discarded: lines are split into tokens before continuation lines were joined", line=cs.node.lineno))
+    # (b) bond validation post-dominates bond decoding.  A validation point is a statement that can raise because an
+    #     endpoint taken from the bond table is missing from the atom table: a call whose callee (closure) has a membership
+    #     test and a raise and is handed the bond table, or an `if …: raise` in the entry whose test (through the
+    #     definitions of the names it uses) holds such a membership test on the bond table
+    def has_membership(node) -> bool:
+        for y in ast.walk(node):
+            if isinstance(y, ast.Compare) and any(isinstance(o, (ast.In, ast.NotIn)) for o in y.ops):
+                return True
+            if isinstance(y, ast.BinOp) and isinstance(y.op, ast.Sub) and any(isinstance(z, ast.Call) and isinstance(z.func, ast.Attribute) and z.func.attr == "keys" for z in ast.walk(y)):
+                return True
+            if isinstance(y, ast.Call) and isinstance(y.func, ast.Attribute) and y.func.attr in ("issubset", "issuperset", "isdisjoint", "difference"):
+                return True
+        return False
+    bond_calls, val_nodes = [], []
+    bond_var = None
+    for st in own_walk(fn):
+        if isinstance(st, ast.Assign) and isinstance(st.value, ast.Call):
+            cs = ctx.cg.resolve_call(v3, st.value, ctx.cg.local_types(v3), set(params_of(fn)))
+            if cs.kind == "tucan" and "bond" in cs.target.name and "valid" not in cs.target.name and isinstance(st.targets[0], ast.Name):
+                bond_calls.append(st.value)
+                bond_var = st.targets[0].id
     if not bond_calls:
-        raise AnalysisError("R-ORDERING: V3000 entry no longer calls a bond-block decoder")
+        raise AnalysisError("R-ORDERING: V3000 entry no longer assigns the result of a bond-block decoder")
+    for st in own_walk(fn):
+        if isinstance(st, ast.Expr) and isinstance(st.value, ast.Call):
+            cs = ctx.cg.resolve_call(v3, st.value, ctx.cg.local_types(v3), set(params_of(fn)))
+            if cs.kind == "tucan" and bond_var in names_in(st.value):
+                sub = [cs.target.fq] + list(ctx.cg.closure([cs.target.fq]))
+                fns_ = [ctx.cg.funcs[q].node for q in dict.fromkeys(sub)]
+                if any(has_membership(f_) for f_ in fns_) and any(isinstance(z, ast.Raise) for f_ in fns_ for z in ast.walk(f_)):
+                    val_nodes.append(st)
+        elif isinstance(st, ast.If) and any(isinstance(z, ast.Raise) for z in st.body):
+            exprs = [st.test]
+            for nm in names_in(st.test):
+                d = single_def(fn, nm)
+                if d is not None:
+                    exprs.append(d)
+            if any(has_membership(x) for x in exprs) and any(bond_var in names_in(x) for x in exprs):
+                val_nodes.append(st)
     ok = False
-    if val_calls:
-        vn = cfg.stmt_node_containing(val_calls[0])
-        bn = cfg.stmt_node_containing(bond_calls[0])
-        ok = vn is not None and bn is not None and cfg.postdominates(vn, bn) and cfg.dominates(bn, vn)
-    res.inst(v3.fq, "bond indices validated against the atom table after decoding, before return", "ok" if ok else "fail")
+    bn = cfg.stmt_node_containing(bond_calls[0])
+    for vs in val_nodes:
+        vn = cfg.node_of(vs) if cfg.node_of(vs) is not None else cfg.stmt_node_containing(vs)
+        if vn is not None and bn is not None and cfg.postdominates(vn, bn) and cfg.dominates(bn, vn):
+            ok = True
+    res.inst(v3.fq, "bond indices validated against the atom table after decoding, before return", "ok" if ok else "fail",
+             detail=f"{len(val_nodes)} validation point(s)")
     if not ok:
         res.fail(Finding("R-ORDERING", v3.module.rel, v3.qualname, short(bond_calls[0]), "V3000 bonds can reach the caller without their endpoints having been checked against the atom table (a dangling endpoint silently creates an atom)", line=bond_calls[0].lineno))
     # (c) TUCAN parser
@@ -1057,6 +1275,7 @@ def r_indexspace(ctx) -> RuleResult:
     J = HeapInterp(ctx.repo)
     lines = Obj("list")
     lines.elem = string()
+    lines.val = "lines"
     ret = J.call(fi, [lines])
     amap, bmap = ret.items
     akeys = {c[1:-1] for c in _labels(amap.keyt, "@idx")}
